@@ -125,11 +125,20 @@ def gen_dataset(rng, idx):
         m, s, p = rng.randrange(4), rng.randrange(4), rng.randrange(4)
     if idx == 0:
         m, s, p = 2, 2, 0          # the 3x4x2 grid with two minishard bits: shard 2 uses {0, 2}
+    many = idx == 1 or (idx > 1 and rng.random() < 0.015)
+    if many:
+        # many shards in one scale (more than 64 open at once, revisited after many others)
+        g = rng.choice([(8, 8, 4), (6, 7, 5), (16, 4, 4)])
+        cs = 1
+        sizes = list(g)
+        m, s, p = rng.choice([(0, 7, 0), (1, 7, 0), (0, 8, 1), (1, 7, 1)])
     ie = rng.choice(["raw", "raw", "gzip"])
     de = rng.choice(["raw", "raw", "gzip"])
     coords = list(itertools.product(range(g[0]), range(g[1]), range(g[2])))
     coords.sort(key=lambda c: ref_cmc(g, c))
     kind = rng.choice(SUBSETS) if idx else "full"
+    if many:
+        kind = rng.choice(["full", "random70"])
     n = len(coords)
     if kind == "full":
         sel = coords
